@@ -246,7 +246,9 @@ def run_case(case, rng):
         psi, eta, init = arr(pol.action_strategy), arr(pol.observation_strategy), arr(pol.initial_state_dist)
         for name, t in (("action", psi), ("node-transition", eta), ("initial", init[None, :])):
             case.count("learner_rows_checked", int(np.prod(t.shape[:-1])))
-            ok = bool((t >= -1e-12).all() and np.allclose(t.sum(-1), 1.0, atol=1e-9) and np.isfinite(t).all())
+            # one floating-point reading for both halves of "is a probability distribution": rows sum to 1 within 1e-9 and no
+            # entry is below -1e-9 (bounded policy iteration's rows come out of an LP solver: -2e-11 was observed, thorough seed 1)
+            ok = bool((t >= -1e-9).all() and np.allclose(t.sum(-1), 1.0, atol=1e-9) and np.isfinite(t).all())
             case.check(ok, f"{mode}:{name}-rows-are-not-probability-distributions", lambda: f"{t.tolist()!r}", **facts)
         val = res.value.expected_value if mode == "ga" else res.value
         val = float(val.detach().numpy()) if hasattr(val, "detach") else float(val)
